@@ -352,6 +352,14 @@ def targeted(w):
                     k = e0 - s0
                     cand = set(x for x in (s0, 0, c, d, w - k) if 0 <= x and x + k <= w)
                     opts.append(sorted(cand))
+                wd = [e0 - s0 for s0, e0 in slots]
+                for pat in ('xkk', 'kkx', 'kxk', 'kkk', 'xxk', 'kxx'):
+                    if any(ch == 'k' and k not in (1, 8, 16, 32, 64) for ch, k in zip(pat, wd)):
+                        continue        # no ExprInt type of that width
+                    parts = []
+                    for ch, (s0, e0), k in zip(pat, slots, wd):
+                        parts.append(((SL(a, s0, e0) if ch == 'x' else I(k, (0x1122334455667788 >> (s0 % 24)) & ((1 << k) - 1) | 1)), s0, e0))
+                    yield CO(*parts)
                 for starts in product(*opts):
                     if starts == tuple(s0 for s0, e0 in slots) and False:
                         continue
